@@ -218,7 +218,12 @@ def rule_names(ctx):
     aa = fx.fn("Problem::add_annotated_formulas")
     p = sym.Eval(fx, inline_depth=0)
     v = p.function(aa)
-    r = repr(v)
+    from .. import comp as _comp
+    _comp.use(fx)
+    try:
+        r = repr(v) + repr(_comp.canon(v))      # the comprehension form sees through a helper handed to `map` as a function value
+    except Exception:
+        r = repr(v)
     ok = "String::is_empty" in r and "('lit', 'unnamed_formula')" in r and "starts_with" in r and "('format', 'f{}'" in r
     ctx.add("NAMES", "sanitise", ok, ctx.site(aa), "an empty name becomes `unnamed_formula`, a name starting with `_` gets the prefix `f`")
     # generated names vs preamble names
